@@ -184,10 +184,11 @@ def run_dyn_case(case, bug_models):
     def next_env(e):
         return tables, case["schedule"], case["max_steps"], bool(case.get("raise_guards"))
 
-    return _run_envs(prog, src, scenario, 1, next_env, bug_models, first_seed=case.get("env_seed", 0))
+    return _run_envs(prog, src, scenario, 1, next_env, bug_models, first_seed=case.get("env_seed", 0),
+                     forced_timestep=case.get("timestep", prog["timestep"]))
 
 
-def _run_envs(prog, src, scenario, n_env, next_env, bug_models, first_seed=0):
+def _run_envs(prog, src, scenario, n_env, next_env, bug_models, first_seed=0, forced_timestep=None):
     nobj = dyngen.count_objects(prog)
     stats = {"programs": 1}
     violations = []
@@ -197,8 +198,18 @@ def _run_envs(prog, src, scenario, n_env, next_env, bug_models, first_seed=0):
     ncor = nobj + len(prog["monitors"]) + sum(1 for s in prog["scenarios"] if s["compose"] is not None)
     sample = None
     case = None
+    prog0 = prog
     for e in range(first_seed, first_seed + n_env):
         tables, schedule, max_steps, raise_guards = next_env(e)
+        # the time step is an argument of simulate(), not of the program: every third environment
+        # simulates the same compiled scenario with another one
+        prog = prog0
+        if forced_timestep is not None:
+            prog = dict(prog0, timestep=forced_timestep)
+        elif e % 3 == 2:
+            ts = dyngen.TIMESTEPS
+            prog = dict(prog0, timestep=ts[(ts.index(prog0["timestep"]) + 1) % len(ts)])
+            stats["environments_with_another_timestep"] = stats.get("environments_with_another_timestep", 0) + 1
         impl = dynrun.run_impl(scenario, tables, schedule, max_steps, prog["timestep"], seed=e,
                                raise_guards=raise_guards)
         verdict, info, ref, finding = dynrun.judge(
@@ -265,7 +276,7 @@ def _run_envs(prog, src, scenario, n_env, next_env, bug_models, first_seed=0):
                 d["ref_outcome"] = strip(ref) if ref else None
                 d["finding"] = fkey
                 violations.append({"clause": clause, "detail": d})
-            case = {"prog": prog, "tables": _bits(tables), "schedule": schedule, "max_steps": max_steps,
+            case = {"prog": prog0, "timestep": prog["timestep"], "tables": _bits(tables), "schedule": schedule, "max_steps": max_steps,
                     "raise_guards": raise_guards, "env_seed": e}
             break
     return {
